@@ -955,10 +955,81 @@ def m2_choreo_flags(ctx: Any, mod: Any) -> None:
                   func='Event.export_text', text=f'choreo flag {kw} written iff {field}')
 
 
+def _anc20(mod: Any, n: ast.AST, stop: Any) -> List[ast.AST]:
+    out = []
+    p = mod.parents.get(n)
+    while p is not None and p is not stop:
+        out.append(p)
+        p = mod.parents.get(p)
+    return out
+
+
+def m2_choreo_params(ctx: Any, mod: Any) -> None:
+    """The three event parameters are read back by position (`param`, `param2`, `param3` -> parameters[0..2]) independently of one another,
+    so whether one of them is written may depend on that one only: a guard on another slot, or a loop that stops at the first empty slot,
+    drops a later parameter that is set."""
+    wr = mod.methods('Event')['export_text']
+    me = wr.args.args[0].arg
+    n_inst = 0
+    for c in ast.walk(wr):
+        if not (isinstance(c, ast.Call) and isinstance(c.func, ast.Attribute) and c.func.attr == 'write' and c.args):
+            continue
+        slots = {x.slice.value for x in ast.walk(c.args[0]) if isinstance(x, ast.Subscript) and dotted(x.value) == f'{me}.parameters' and isinstance(x.slice, ast.Constant) and isinstance(x.slice.value, int)}
+        if len(slots) != 1:
+            continue
+        k = next(iter(slots))
+        n_inst += 1
+        tested: Set[Any] = set()
+        ch, par = c, mod.parents.get(c)
+        while par is not None and par is not wr:
+            if isinstance(par, ast.If):
+                for x in ast.walk(par.test):
+                    if isinstance(x, ast.Subscript) and dotted(x.value) == f'{me}.parameters':
+                        tested.add(x.slice.value if isinstance(x.slice, ast.Constant) else '?')
+            ch, par = par, mod.parents.get(par)
+        ctx.check('C20.M2', tested <= {k}, mod, c, f'parameters[{k}] is written only when parameters{sorted(tested - {k}, key=str)} allow: an event with this slot set and the other empty loses it '
+                  '(the reader fills the three slots independently)', func='Event.export_text', text=f'choreo parameters[{k}] written on its own condition')
+    # loops that write one line per item must not stop at an item: the rest is never looked at
+    for cls_ in ('Event', 'Channel', 'Actor', 'Scene'):
+        fn = mod.methods(cls_)['export_text']
+        for lp in walk_no_nested(fn):
+            if not isinstance(lp, ast.For):
+                continue
+            writes_ = any(isinstance(c, ast.Call) and isinstance(c.func, ast.Attribute) and c.func.attr in ('write', 'export_text') for b in lp.body for c in ast.walk(b))
+            if not writes_:
+                continue
+            lvars = {x.id for x in ast.walk(lp.target) if isinstance(x, ast.Name)}
+            def own_breaks(stmts: Any) -> Any:
+                for st in stmts:
+                    if isinstance(st, ast.Break):
+                        yield st
+                    elif isinstance(st, (ast.For, ast.While, ast.FunctionDef)):
+                        continue
+                    else:
+                        for fld in ('body', 'orelse', 'finalbody'):
+                            yield from own_breaks(getattr(st, fld, []) or [])
+                        for h in getattr(st, 'handlers', []):
+                            yield from own_breaks(h.body)
+            brs = list(own_breaks(lp.body))
+            n_inst += 1
+            for br in brs:
+                guards = [a for a in _anc20(mod, br, lp) if isinstance(a, ast.If)]
+                item_dep = any(isinstance(x, ast.Name) and x.id in lvars for g in guards for x in ast.walk(g.test))
+                if not item_dep:
+                    ctx.shape('C20.M2', False, mod, br, f'`break` in a writing loop of {cls_}.export_text under a condition that does not mention the item', func=f'{cls_}.export_text', text=f'{cls_}.export_text: writing loops visit every item')
+                    continue
+                ctx.check('C20.M2', False, mod, br, f'the loop `for {U(lp.target)} in {U(lp.iter)[:40]}` of {cls_}.export_text writes one line per item but stops at the first item for which `{U(guards[0].test)[:60]}` holds: '
+                          'later items that should be written are never reached (the reader takes each of them independently)', func=f'{cls_}.export_text', text=f'{cls_}.export_text: writing loops visit every item')
+            if not brs:
+                ctx.check('C20.M2', True, mod, lp, 'no break', func=f'{cls_}.export_text', text=f'{cls_}.export_text: writing loops visit every item')
+    ctx.shape('C20.M2', n_inst >= 3, mod, wr, f'{n_inst} parameter writes / writing loops found in the choreo writers', func='Event.export_text', text='choreo parameter writes')
+
+
 def m2_choreo_text(ctx: Any, prog: Program) -> None:
     mod = prog.module('choreo')
     fold = Folder(prog, mod)
     m2_choreo_flags(ctx, mod)
+    m2_choreo_params(ctx, mod)
     # (writer class.method, reader class.method that consumes its lines, extra keywords the reader's caller handles)
     pairs = [
         ('Event', 'Event', {'event'}), ('Channel', 'Channel', {'channel'}), ('Actor', 'Actor', {'actor'}), ('Scene', 'Scene', set()),
@@ -1463,6 +1534,9 @@ def m5_tables(ctx: Any, prog: Program) -> None:
 
 
 MUTANTS: List[Dict[str, Any]] = [
+    {'id': 'param3_needs_param2', 'file': 'choreo.py', 'find': "        if self.parameters[2]:\n            file.write(f'{indent} param3", 'replace': "        if self.parameters[1] and self.parameters[2]:\n            file.write(f'{indent} param3", 'expect': 'C20.M2'},
+    {'id': 'param_loop_breaks', 'file': 'choreo.py', 'find': "        file.write(f'{indent} param \"{escape_text(self.parameters[0])}\"\\n')\n        if self.parameters[1]:\n            file.write(f'{indent} param2 \"{escape_text(self.parameters[1])}\"\\n')\n        if self.parameters[2]:\n            file.write(f'{indent} param3 \"{escape_text(self.parameters[2])}\"\\n')\n", 'replace': "        for key, ind in PARAM_KEY_INDEXES.items():\n            if ind > 0 and not self.parameters[ind]:\n                break\n            file.write(f'{indent} {key} \"{escape_text(self.parameters[ind])}\"\\n')\n", 'expect': 'C20.M2'},
+    {'id': 'ok_param_loop_continues', 'file': 'choreo.py', 'find': "        file.write(f'{indent} param \"{escape_text(self.parameters[0])}\"\\n')\n        if self.parameters[1]:\n            file.write(f'{indent} param2 \"{escape_text(self.parameters[1])}\"\\n')\n        if self.parameters[2]:\n            file.write(f'{indent} param3 \"{escape_text(self.parameters[2])}\"\\n')\n", 'replace': "        for key, ind in PARAM_KEY_INDEXES.items():\n            if ind > 0 and not self.parameters[ind]:\n                continue\n            file.write(f'{indent} {key} \"{escape_text(self.parameters[ind])}\"\\n')\n", 'expect': None, 'refuse_ok': True, 'note': 'negative control: loop form that visits every slot'},
     {'id': 'last_speak_unfiltered', 'file': 'choreo.py', 'find': "            last_speak_ms=round(scene.duration(EventType.Speak) * 1000.0),", 'replace': "            last_speak_ms=round(scene.duration() * 1000.0),", 'expect': 'C20.M4'},
     {'id': 'snd_range_six_decimals', 'file': 'sndscript.py', 'find': "        return f'{low!s}, {high!s}'", 'replace': "        return f'{low:.6f}, {high:.6f}'", 'expect': 'C20.M2'},
     {'id': 'ok_snd_range_str_calls', 'file': 'sndscript.py', 'find': "        return f'{low!s}, {high!s}'", 'replace': "        return str(low) + ', ' + str(high)", 'expect': None},
